@@ -605,9 +605,39 @@ pub fn run_c03(tier: Tier) -> Report {
     r.run_opt("same-size-other-format-value-standard-mode", &lenient, Some("UnimplementedDecoding"));
     rep.assume("standard mode: a predicted picture whose header names another picture-format value than the previous header (even for the same size) may be refused with UnimplementedDecoding (picture-format changes are documented as unimplemented in the header parser); when accepted it must be exact");
 
+    // ---- size histories (Sorenson): every ordered pair (A, B) of sizes that collide in one derived
+    // quantity and differ in another; pictures of size A, an I picture of size B, then predicted and
+    // disposable pictures of size B
+    let mut cases = vec![];
+    let sizes = super::crash::colliding_sizes(false);
+    let pic_of = |w: u16, h: u16, ptype: u8, tr: u8, salt: usize| -> Pic {
+        let (mbw, mbh) = mb_grid(w, h);
+        let specs: Vec<Spec> = (0..mbw * mbh)
+            .map(|i| match (i + salt) % 5 {
+                0 => Spec::NotCoded,
+                3 => Spec::Inter4V([VECS[(i + salt) % 8], VECS[(i + 3) % 8], VECS[(i + 5) % 8], VECS[(i + 6) % 8]], i % 2 == 0),
+                _ => Spec::Inter(VECS[(i + 2 * salt) % 8], i % 4 == 1),
+            })
+            .collect();
+        let mut p = Pic { hdr: shdr(w, h, ptype, tr, 6, 0), mbs: mbs_for(&specs, mbw, false, true) };
+        fix_last_flags(&mut p);
+        p
+    };
+    for &(wa, ha) in &sizes {
+        for &(wb, hb) in &sizes {
+            let ia = noise_intra(shdr(wa, ha, 0, 0, 6, 0), seed ^ 0x71);
+            let ib = noise_intra(shdr(wb, hb, 0, 2, 6, 0), seed ^ 0x72);
+            cases.push(vec![ia.clone(), ib.clone(), pic_of(wb, hb, 1, 3, 0)]);
+            cases.push(vec![ia.clone(), pic_of(wa, ha, 1, 1, 1), ib.clone(), pic_of(wb, hb, 2, 3, 2), pic_of(wb, hb, 1, 4, 3)]);
+            cases.push(vec![ia, pic_of(wa, ha, 2, 1, 4), ib, pic_of(wb, hb, 1, 3, 0)]);
+        }
+    }
+    r.run("size-histories", &cases);
+    rep.add_nontrivial(cases.len() as u64);
+
     r.finish();
     rep.set_rule(
-        "P/D pictures as syntax trees over LCG-noise reference pictures, decoded by H263State and by the reference decoder (median prediction, wrap, chroma vector, bilinear half-sample, edge clamp, residual add/clip): all 7^n macroblock-kind assignments on 5 grids; every differential (64x64) on single-macroblock pictures of each size class and on the interior macroblock of 48x48 x 3 residual kinds; truncation after every macroblock and at every byte; no-reference rejection; residual clipping; every ordered pair of ways to signal one picture size between the reference and the predicted picture; \
+        "P/D pictures as syntax trees over LCG-noise reference pictures, decoded by H263State and by the reference decoder (median prediction, wrap, chroma vector, bilinear half-sample, edge clamp, residual add/clip): all 7^n macroblock-kind assignments on 5 grids; every differential (64x64) on single-macroblock pictures of each size class and on the interior macroblock of 48x48 x 3 residual kinds; truncation after every macroblock and at every byte; no-reference rejection; residual clipping; every ordered pair of ways to signal one picture size between the reference and the predicted picture; every ordered pair of 17 colliding sizes as histories I(A)[,P(A)|D(A)],I(B),[D(B),]P(B); \
          non-trivial = sequence whose predicted picture has a non-zero vector or a residual",
     );
     rep.sample(json!({"sweep": "mb-types", "picture": "32x32 [Inter4VQ, NotCoded, IntraQ, Inter] over a noise reference"}));
